@@ -133,6 +133,16 @@ def run_plans(case):
                     text, globs = H.graph_text(attached_only=False)
                     files = c01.tree_outputs(".")
                     files = {p: v for p, v in files.items() if not p.startswith(".stepup")}
+                    # the content of a volatile output is not part of the result
+                    import sqlite3
+                    con = sqlite3.connect("file:.stepup/graph.db?mode=ro", uri=True)
+                    try:
+                        for (lab,) in con.execute("SELECT node.label FROM node JOIN file ON file.node = node.i "
+                                                  "WHERE file.state = 18"):
+                            if lab in files:
+                                files[lab] = "<volatile>"
+                    finally:
+                        con.close()
                 except Exception as exc:  # noqa: BLE001
                     text, globs, files = None, None, {"error": repr(exc)}
                 finally:
